@@ -348,7 +348,7 @@ func GenParallel(t *rapid.T, name string, o GenOpts) *rt.Spec {
 	}
 	s.Units, s.Colls = unit, coll
 	if !anyEnd && prob(t, "coe", o.PCOE) {
-		s.COE = []string{"true", "true", "false", "expr", "expr"}[uniform(t, "coekind", 5)]
+		s.COE = []string{"true", "true", "false", "expr", "expr", "bctrue", "bcfalse"}[uniform(t, "coekind", 7)]
 	}
 	genCommon(t, s, o)
 	return s
